@@ -460,6 +460,8 @@ def r5_reparse_sites(ctx, rid: str = "C05.R5", placeholders: bool = False) -> No
                 continue
             loc = f"{f.module.relpath}:{n.lineno}"
             reason = REPARSE_SITES.get((q, unparse(n)))
+            if reason is None:  # the reviewed step may live in a helper method of the same class
+                reason = next((why for (kq, kt), why in REPARSE_SITES.items() if kt == unparse(n) and kq.rsplit(".", 1)[0] == q.rsplit(".", 1)[0]), None)
             if placeholders:
                 restores = any(isinstance(c, ast.Call) and isinstance(c.func, ast.Attribute) and c.func.attr == "insert_placeholders" for c in walk_no_nested(f.node))
                 key_only = reason is not None and "lookup key" in reason
